@@ -103,13 +103,6 @@ pub fn minimise_buffers(s: &impl AsRawFd) {
     }
 }
 
-pub fn sndbuf(s: &impl AsRawFd) -> usize {
-    let mut v: libc::c_int = 0;
-    let mut l = std::mem::size_of::<libc::c_int>() as libc::socklen_t;
-    unsafe { libc::getsockopt(s.as_raw_fd(), libc::SOL_SOCKET, libc::SO_SNDBUF, &mut v as *mut _ as *mut _, &mut l) };
-    v as usize
-}
-
 /// abortive close for TCP (no TIME_WAIT pile-up over 10^5 connections)
 pub fn set_linger0(fd: RawFd) {
     let l = libc::linger { l_onoff: 1, l_linger: 0 };
@@ -140,7 +133,6 @@ pub struct Dgram {
     pub data: Vec<u8>,
     pub from: Option<SockAddr>,
     pub control: Vec<u8>,
-    pub flags: i32,
     /// true length (MSG_TRUNC requested)
     pub real_len: usize,
 }
@@ -179,7 +171,7 @@ pub fn recvmsg_nb(s: &Socket, max: usize, dgram: bool) -> io::Result<Option<Dgra
     };
     let cl = msg.msg_controllen as usize;
     let control = unsafe { std::slice::from_raw_parts(ctl.as_ptr().cast::<u8>(), cl) }.to_vec();
-    Ok(Some(Dgram { data: buf, from, control, flags: msg.msg_flags, real_len }))
+    Ok(Some(Dgram { data: buf, from, control, real_len }))
 }
 
 /// wait (bounded) for a kernel condition the harness itself caused
@@ -251,4 +243,11 @@ pub fn tcp_bytes_received(fd: RawFd) -> u64 {
         return u64::MAX;
     }
     u64::from_ne_bytes(buf[128..136].try_into().unwrap())
+}
+
+/// does the kernel report send space on this socket right now (POLLOUT, zero timeout)?
+pub fn writable(fd: RawFd) -> bool {
+    let mut p = libc::pollfd { fd, events: libc::POLLOUT, revents: 0 };
+    let r = unsafe { libc::poll(&mut p, 1, 0) };
+    r > 0 && p.revents & libc::POLLOUT != 0
 }
